@@ -172,7 +172,12 @@ impl R {
                     // the macro text starts right after the name / formal list (its leading blank included)
                     let b = self.out.len();
                     self.out.push(' ');
-                    self.out.push_str(body);
+                    // line continuations follow the file's line-end convention
+                    if self.layout == Layout::IndentCrlf {
+                        self.out.push_str(&body.replace("\\\n", "\\\r\n"));
+                    } else {
+                        self.out.push_str(body);
+                    }
                     bspan = Some((b, self.out.len()));
                 }
                 self.pos[idx] = Pos { start: st, end: self.out.len(), line, body: bspan, marker: None };
@@ -375,7 +380,11 @@ impl<'a> Interp<'a> {
                         Item::UndefAll => self.table.clear(),
                         Item::Define { name, formals, body } => {
                             if !predefined(name) {
-                                let body_o = if body.is_empty() { None } else { Some(body.clone()) };
+                                // (the text as it stands in the file: continuations carry the file's line ends)
+                                let body_o = match p.body {
+                                    Some((b, e)) if !body.is_empty() => Some(rend.text[b + 1..e].to_string()),
+                                    _ => None,
+                                };
                                 let origin = p.body.map(|(b, e)| (path.to_string(), b, e));
                                 self.table.insert(
                                     name.clone(),
